@@ -2,5 +2,6 @@
 # offline setup: regenerate tables from /repo, build all Lean theorems and the model driver
 cd "$(dirname "$0")" || exit 1
 /venv/bin/python harness/extract.py || exit 1
+/venv/bin/python harness/genops.py || exit 1
 cd lean && lake build 2>&1 | tail -5
 test -x .lake/build/bin/pfdriver
